@@ -1,5 +1,16 @@
 package main
 
+import (
+	"fmt"
+	"go/ast"
+	"go/constant"
+	"go/token"
+	"math"
+	"sort"
+	"strconv"
+	"strings"
+)
+
 func init() {
 	generators["C15_gen"] = func(o *out) {
 		const w = "token/worker"
@@ -46,5 +57,1003 @@ func init() {
 		fingerprint(wc, "handler", "handle")
 		fingerprint(tc, "Cache", "GetKey")
 		fingerprint(h, "", "Temporary")
+
+		// ============================================================ (a) doRetry with time
+		o.f("\n(* ---- doRetry with time: per-attempt timeout, float32 backoff arithmetic, statement skeleton ---- *)\n")
+		tl := map[string]string{"time.Duration(t.tconf.Timeout)": "conf_timeout_s", "timeout": "timeout", "delay": "delay"}
+		fcalls := map[string]string{"float32": "f32"}
+		o.exprOfAssign(funcSpec{dir: w, recv: "WorkerToken", name: "doRetry", coqName: "retry_timeout_of_conf",
+			params: "(conf_timeout_s : Z)", retType: "Z", leaves: tl}, "timeout", 0)
+		o.condOf(funcSpec{dir: w, recv: "WorkerToken", name: "doRetry", coqName: "retry_timeout_use_default",
+			params: "(timeout : Z)", retType: "bool", leaves: tl}, "if:timeout", 0)
+		o.exprOfAssign(funcSpec{dir: w, recv: "WorkerToken", name: "doRetry", coqName: "retry_timeout_default",
+			params: "", retType: "Z", leaves: tl}, "timeout", 1)
+		o.exprOfAssign(funcSpec{dir: w, recv: "WorkerToken", name: "doRetry", coqName: "retry_retries_default",
+			params: "", retType: "Z", leaves: tl}, "retries", 1)
+		o.exprOfAssign(funcSpec{dir: w, recv: "WorkerToken", name: "doRetry", coqName: "retry_delay_init",
+			params: "(f32 : Z -> Z)", retType: "Z", leaves: tl, calls: fcalls}, "delay", 0)
+		o.c15AssignOp(w, "WorkerToken", "doRetry", "delay", 1, "scaleFactor", "retry_delay_scaled_by_factor")
+		o.condOf(funcSpec{dir: w, recv: "WorkerToken", name: "doRetry", coqName: "retry_delay_over_cap",
+			params: "(f32 : Z -> Z) (delay : Z)", retType: "bool", leaves: tl, calls: fcalls}, "if:delay", 0)
+		o.exprOfAssign(funcSpec{dir: w, recv: "WorkerToken", name: "doRetry", coqName: "retry_delay_cap",
+			params: "(f32 : Z -> Z)", retType: "Z", leaves: tl, calls: fcalls}, "delay", 2)
+		o.c15Float32Const(w, "scaleFactor", "scale_f32")
+		// errors as numbers: 0 = nil
+		el := map[string]string{"baseCtx.Err()": "base_err", "err": "err", "nil": "0"}
+		o.condOf(funcSpec{dir: w, recv: "WorkerToken", name: "doRetry", coqName: "retry_base_done",
+			params: "(base_err : Z)", retType: "bool", leaves: el}, "if:baseCtx", 0)
+		o.condOf(funcSpec{dir: w, recv: "WorkerToken", name: "doRetry", coqName: "retry_attempt_ok",
+			params: "(err : Z)", retType: "bool", leaves: el}, "if:err ", 0)
+		o.c15Skeleton(w, "WorkerToken", "doRetry", "retry_skeleton", []c15Pat{
+			{1, "stmt", "retries := t.tconf.Retries"}, {2, "if", "retries"}, {3, "stmt", "retries = defaultRetries"},
+			{4, "prefix", "timeout := "}, {5, "if", "timeout"}, {6, "stmt", "timeout = defaultTimeout"},
+			{7, "stmt", "baseCtx := req.Context()"}, {8, "prefix", "delay := "}, {9, "stmt", "var last error"},
+			{10, "for", "i,retries"}, {11, "if", "i"},
+			{12, "stmt", "ctx, cancel := context.WithTimeout(baseCtx, time.Duration(delay))"}, {13, "stmt", "<-ctx.Done()"},
+			{14, "stmt", "cancel()"}, {15, "if", "Err,baseCtx,nil"}, {16, "stmt", "return nil, baseCtx.Err()"},
+			{17, "prefix", "delay *= "}, {18, "if", "delay,float32,maxDelay"}, {19, "prefix", "delay = "},
+			{20, "stmt", "rresp, err := t.doOnce(req, timeout)"}, {21, "if", "err,nil"}, {22, "stmt", "return rresp, nil"},
+			{23, "stmt", "var retry bool"}, {24, "if", "Temporary,err,httperror"}, {25, "stmt", "retry = true"},
+			{26, "if", "As,KeyUsageError,err,errors,new,token"}, {27, "if", "As,ResponseError,e,err,errors,httperror,new"},
+			{28, "if", "DeadlineExceeded,Is,context,err,errors"},
+			{29, "if", "retry"}, {30, "stmt", "return nil, err"}, {31, "stmt", "last = err"}, {32, "stmt", "return nil, last"},
+		}, []string{"log.Warn()", "t.observe(", "code = ", "code := ", "start := time.Now()"})
+		o.c15Skeleton(w, "WorkerToken", "doOnce", "once_skeleton", []c15Pat{
+			{1, "stmt", "ctx, cancel := context.WithTimeout(req.Context(), timeout)"}, {2, "stmt", "defer cancel()"},
+			{3, "if", "GetBody,nil,req"}, {4, "stmt", "var err error"}, {5, "stmt", "req.Body, err = req.GetBody()"},
+			{6, "if", "err,nil"}, {7, "stmt", "return nil, err"},
+			{8, "stmt", "resp, err := http.DefaultClient.Do(req.WithContext(ctx))"}, {9, "stmt", "defer resp.Body.Close()"},
+			{10, "if", "StatusCode,StatusOK,http,resp"}, {11, "stmt", "return nil, httperror.FromResponse(resp)"},
+			{12, "stmt", "blob, err := io.ReadAll(resp.Body)"}, {13, "stmt", "rresp := new(workerrpc.Response)"},
+			{14, "if", "Unmarshal,blob,err,json,nil,rresp"}, {15, "if", "Err,rresp"}, {16, "stmt", "return rresp, nil"},
+			{17, "if", "Usage,rresp"}, {18, "stmt", "return nil, token.KeyUsageError{ Key: rresp.Key, Err: errors.New(rresp.Err), }"},
+			{19, "stmt", "return nil, tokenError{Err: rresp.Err, Retryable: rresp.Retryable}"},
+		}, nil)
+		o.condOf(funcSpec{dir: w, recv: "WorkerToken", name: "doOnce", coqName: "once_status_bad",
+			params: "(status : Z)", retType: "bool", leaves: map[string]string{"resp.StatusCode": "status"}}, "if:resp.StatusCode", 0)
+		o.condOf(funcSpec{dir: w, recv: "WorkerToken", name: "doOnce", coqName: "once_reply_is_success",
+			params: "(err_text : bytes)", retType: "bool", leaves: map[string]string{"rresp.Err": "err_text"},
+			types: map[string]string{"rresp.Err": "str"}}, "if:rresp.Err", 0)
+		o.condOf(funcSpec{dir: w, recv: "WorkerToken", name: "doOnce", coqName: "once_reply_is_usage",
+			params: "(usage : bool)", retType: "bool", leaves: map[string]string{"rresp.Usage": "usage"},
+			types: map[string]string{"rresp.Usage": "bool"}}, "if:rresp.Usage", 0)
+		o.decisionFunc(funcSpec{dir: w, recv: "tokenError", name: "Temporary", coqName: "token_error_temporary",
+			params: "(retryable : bool)", retType: "bool", leaves: map[string]string{"e.Retryable": "retryable"},
+			types: map[string]string{"e.Retryable": "bool"}})
+		o.decisionFunc(funcSpec{dir: h, recv: "ResponseError", name: "Temporary", coqName: "response_error_temporary",
+			params: "(code : Z)", retType: "bool", leaves: map[string]string{"e.StatusCode": "code"},
+			calls: map[string]string{"statusIsTemporary": "status_is_temporary"}, types: map[string]string{"statusIsTemporary()": "bool"}})
+		// Temporary() consults the error's own Temporary method by a plain type assertion, before the errors.As/Is chain
+		o.c15Skeleton(h, "", "Temporary", "temporary_skeleton", []c15Pat{
+			{1, "if", "err,nil"}, {2, "stmt", "return false"}, {3, "if", "Temporary,e,err,ok,temporary"}, {4, "stmt", "return true"},
+			{5, "switch", ""}, {6, "case", "As,SyscallError,err,errors,new,os"}, {7, "case", "Canceled,Is,context,err,errors"},
+			{8, "case", "DeadlineExceeded,Is,context,err,errors"}, {9, "case", "ErrUnexpectedEOF,Is,err,errors,io"},
+		}, nil)
+
+		// ============================================================ (b) the RPC boundary
+		o.f("\n(* ---- worker RPC boundary: method table, message fields, request construction, dispatch, classification ---- *)\n")
+		const rp = "internal/workerrpc"
+		o.c15StringConsts(rp, "rpc")
+		o.c15StructFields(rp, "Request", "rpc_request_fields")
+		o.c15StructFields(rp, "Response", "rpc_response_fields")
+		// client side: every call of t.request in the package, with the method and the request fields it fills
+		o.c15ClientCalls(w, rp, "client_calls")
+		o.c15ResultFields(w, "WorkerToken", "GetKey", "res", "client_getkey_reads")
+		o.c15ResultFields(w, "workerKey", "SignContext", "res", "client_sign_reads")
+		o.c15Skeleton(w, "WorkerToken", "request", "request_skeleton", []c15Pat{
+			{1, "stmt", "req := &http.Request{ Method: http.MethodPost, URL: &url.URL{Scheme: \"http\", Host: t.addr, Path: path}, Header: http.Header{\"Auth-Cookie\": []string{t.cookie}}, }"},
+			{2, "stmt", "blob, err := json.Marshal(rr)"}, {3, "if", "err,nil"}, {4, "stmt", "return nil, err"},
+			{5, "stmt", "req.GetBody = func"}, {7, "stmt", "return io.NopCloser(bytes.NewReader(blob)), nil"},
+			{6, "stmt", "return t.doRetry(req.WithContext(ctx))"},
+		}, nil)
+		o.c15HeaderKey(w, "WorkerToken", "request", "http.Header", "client_cookie_header")
+		o.c15CallStringArg(wc, "handler", "ServeHTTP", "req.Header.Get", 0, "handler_cookie_header")
+		// server side
+		o.c15Skeleton(wc, "handler", "ServeHTTP", "serve_skeleton", []c15Pat{
+			{1, "stmt", "cookie := req.Header.Get(\"Auth-Cookie\")"}, {2, "if", "Equal,byte,cookie,h,hmac"},
+			{3, "stmt", "rw.WriteHeader(http.StatusForbidden)"}, {4, "stmt", "return"},
+			{5, "stmt", "resp, err := h.handle(rw, req)"}, {6, "if", "err,nil"},
+			{7, "stmt", "resp.Retryable = true"}, {8, "stmt", "resp.Err = err.Error()"},
+			{21, "stmt", "var p11err pkcs11Error"}, {22, "stmt", "var notImpl token.NotImplementedError"}, {23, "stmt", "var usage token.KeyUsageError"},
+			{9, "switch", ""}, {10, "case", "As,err,errors,p11err"}, {11, "if", "fatalErrors,p11err"}, {12, "stmt", "go h.shutdown()"},
+			{13, "stmt", "resp.Retryable = false"}, {14, "case", "As,err,errors,notImpl"}, {15, "case", "As,err,errors,usage"},
+			{16, "stmt", "resp.Usage = true"}, {17, "stmt", "resp.Key = usage.Key"}, {18, "stmt", "resp.Err = usage.Err.Error()"},
+			{24, "if", "Err,resp"}, {25, "prefix", "resp.Err = \""},
+			{19, "stmt", "blob, err := json.Marshal(resp)"}, {20, "stmt", "_, err = rw.Write(blob)"},
+		}, []string{"log.Err("})
+		// a failure is encoded as a non-empty Err text: the guard that keeps an empty error text from reading as success
+		o.condOf(funcSpec{dir: wc, recv: "handler", name: "ServeHTTP", coqName: "serve_err_text_empty",
+			params: "(err_text : bytes)", retType: "bool", leaves: map[string]string{"resp.Err": "err_text"},
+			types: map[string]string{"resp.Err": "str"}}, "if:resp.Err", 0)
+		o.exprOfAssign(funcSpec{dir: wc, recv: "handler", name: "ServeHTTP", coqName: "serve_err_text_default",
+			params: "", retType: "bytes", leaves: map[string]string{"err.Error()": "[]", "usage.Err.Error()": "[]"}}, "resp.Err", 2)
+		o.condOf(funcSpec{dir: wc, recv: "handler", name: "ServeHTTP", coqName: "serve_has_error",
+			params: "(err : Z)", retType: "bool", leaves: map[string]string{"err": "err", "nil": "0"}}, "if:err ", 0)
+		o.c15TypeSwitchTable(wc, "handler", "ServeHTTP", "handler_class")
+		o.c15Skeleton(wc, "handler", "handle", "handle_skeleton", []c15Pat{
+			{1, "stmt", "blob, err := io.ReadAll(req.Body)"}, {2, "if", "err,nil"}, {3, "stmt", "return resp, err"},
+			{4, "stmt", "var rr workerrpc.Request"}, {5, "if", "Unmarshal,blob,err,json,nil,rr"},
+			{6, "stmt", "ctx := req.Context()"}, {7, "if", "KeyID,nil,rr"}, {8, "stmt", "ctx = token.WithKeyID(ctx, rr.KeyID)"},
+			{9, "switch", "Path,URL,req"}, {10, "case", "Ping,workerrpc"}, {11, "stmt", "return resp, h.token.Ping(ctx)"},
+			{12, "case", "GetKey,workerrpc"}, {13, "stmt", "key, err := h.token.GetKey(ctx, rr.KeyName)"},
+			{14, "stmt", "resp.ID = key.GetID()"}, {15, "stmt", "resp.Cert = key.Certificate()"},
+			{16, "stmt", "resp.Value, err = x509.MarshalPKIXPublicKey(key.Public())"},
+			{17, "case", "Sign,workerrpc"}, {18, "stmt", "hash := crypto.Hash(rr.Hash)"}, {19, "stmt", "opts := crypto.SignerOpts(hash)"},
+			{20, "if", "SaltLength,nil,rr"}, {21, "stmt", "opts = &rsa.PSSOptions{SaltLength: *rr.SaltLength, Hash: hash}"},
+			{22, "stmt", "resp.Value, err = key.SignContext(ctx, rr.Digest, opts)"}, {23, "case", "default"},
+			{24, "stmt", "return resp, errors.New(\"invalid method: \" + req.URL.Path)"},
+		}, nil)
+		o.c15DispatchTable(wc, "handler", "handle", "req.URL.Path", rp, "handler_dispatch")
+		o.c15MapKeys(wc, "fatalErrors", "fatal_error_names")
+
+		// ============================================================ (c) worker process lifecycle
+		o.f("\n(* ---- worker process lifecycle: constants, monitor / spawn / Close skeletons ---- *)\n")
+		o.constInt(w, "startTimeout", "start_timeout_ns")
+		o.constInt(w, "restartDelay", "restart_delay_ns")
+		o.condOf(funcSpec{dir: w, recv: "WorkerToken", name: "monitor", coqName: "monitor_target_configured",
+			params: "(has_server : bool) (num_workers : Z)", retType: "bool",
+			leaves: map[string]string{"t.config.Server != nil": "has_server", "t.config.Server.NumWorkers": "num_workers"},
+			types:  map[string]string{"t.config.Server != nil": "bool"}}, "if:NumWorkers", 0)
+		o.condOf(funcSpec{dir: w, recv: "WorkerToken", name: "monitor", coqName: "monitor_needs_worker",
+			params: "(count target : Z)", retType: "bool",
+			leaves: map[string]string{"t.countWorkers()": "count", "target": "target"}}, "for:countWorkers", 0)
+		o.condOf(funcSpec{dir: w, recv: "WorkerToken", name: "monitor", coqName: "monitor_runs",
+			params: "(ctx_err_nil : bool)", retType: "bool",
+			leaves: map[string]string{"t.ctx.Err() == nil": "ctx_err_nil"}, types: map[string]string{"t.ctx.Err() == nil": "bool"}}, "for:t.ctx.Err", 0)
+		o.c15Skeleton(w, "WorkerToken", "monitor", "monitor_skeleton", []c15Pat{
+			{1, "stmt", "defer t.wg.Done()"}, {2, "stmt", "target := 1"}, {3, "if", "NumWorkers,Server,config,nil,t"},
+			{4, "stmt", "target = t.config.Server.NumWorkers"}, {5, "for", "Err,ctx,nil,t"}, {6, "for", "countWorkers,t,target"},
+			{7, "if", "err,nil,spawn,t"}, {8, "select", ""}, {9, "comm", "After,restartDelay,time"}, {10, "comm", "Done,ctx,t"},
+			{11, "stmt", "return"}, {12, "comm", "pid,procsExited,t"}, {13, "stmt", "t.removePid(pid)"}, {14, "comm", "Stopping,notify,pid,t"},
+		}, []string{"log.Printf("})
+		o.c15Skeleton(w, "WorkerToken", "spawn", "spawn_skeleton", []c15Pat{
+			{1, "if", "Start,cmd,err,nil"}, {21, "if", "err,nil"}, {22, "if", "Attach,cmd,err,fdset,nil,t"}, {2, "stmt", "return err"}, {3, "stmt", "pid := cmd.Process.Pid"},
+			{4, "stmt", "exited := make(chan struct{})"}, {5, "stmt", "go func"}, {23, "stmt", "defer t.wg.Done()"}, {24, "stmt", "_ = cmd.Wait()"},
+			{25, "stmt", "t.procsExited <- pid"}, {26, "stmt", "close(exited)"},
+			{6, "stmt", "t.mu.Lock()"}, {7, "stmt", "t.procs[pid] = struct{}{}"}, {8, "stmt", "t.mu.Unlock()"},
+			{9, "stmt", "ctx, cancel := context.WithTimeout(context.Background(), startTimeout)"}, {10, "select", ""},
+			{11, "comm", "Ready,notify,t"}, {12, "comm", "Done,ctx"}, {13, "stmt", "_ = cmd.Process.Kill()"},
+			{14, "prefix", "return fmt.Errorf(\"token \\\"%s\\\" worker timed out during startup\""}, {15, "comm", "exited"},
+			{16, "prefix", "return fmt.Errorf(\"token \\\"%s\\\" worker exited prematurely\""}, {17, "stmt", "return nil"},
+			{18, "stmt", "t.wg.Add(1)"}, {19, "stmt", "detach()"}, {20, "stmt", "defer cancel()"},
+		}, []string{"self, err := os.Executable()", "cmd := exec.Command(", "cmd.Path = ", "cmd.Stdin = ", "cmd.Stdout = ", "cmd.Stderr = ", "cmd.SysProcAttr = ",
+			"cmd.Env = ", "detach, err := t.notify.Attach(cmd)", "defer detach()"})
+		o.c15Skeleton(w, "WorkerToken", "Close", "close_skeleton", []c15Pat{
+			{1, "if", "nil,t"}, {2, "stmt", "return nil"}, {3, "stmt", "return t.closed.Close(func"}, {4, "stmt", "t.cancel()"},
+			{5, "stmt", "t.mu.Lock()"}, {6, "for", "pid,procs,t"}, {7, "stmt", "_ = syscall.Kill(pid, syscall.SIGTERM)"}, {8, "stmt", "t.mu.Unlock()"},
+			{9, "stmt", "t.wg.Wait()"}, {10, "stmt", "t.fdset.Close()"}, {11, "stmt", "t.notify.Close()"},
+		}, nil)
+		o.c15Skeleton(w, "WorkerToken", "removePid", "removepid_skeleton", []c15Pat{
+			{1, "stmt", "t.mu.Lock()"}, {2, "stmt", "delete(t.procs, pid)"}, {3, "stmt", "t.mu.Unlock()"},
+		}, nil)
+		o.c15ChanCap(w, "", "New", "procsExited", "procs_exited_capacity")
+		fingerprint(w, "WorkerToken", "monitor")
+		fingerprint(w, "WorkerToken", "spawn")
+		fingerprint(w, "WorkerToken", "Close")
+		fingerprint(w, "WorkerToken", "request")
+		fingerprint(w, "workerKey", "SignContext")
 	}
+}
+
+// ---------------------------------------------------------------- C15 helpers
+
+func c15norm(s string) string { return strings.Join(strings.Fields(s), " ") }
+
+// cf: like o.f, but double quotes inside Coq comments are replaced (Coq lexes string literals inside comments)
+func (o *out) cf(format string, a ...interface{}) {
+	s := fmt.Sprintf(format, a...)
+	var b strings.Builder
+	depth := 0
+	for i := 0; i < len(s); i++ {
+		if strings.HasPrefix(s[i:], "(*") {
+			depth++
+		} else if strings.HasPrefix(s[i:], "*)") && depth > 0 {
+			depth--
+		}
+		if s[i] == '"' && depth > 0 {
+			b.WriteByte('\'')
+			continue
+		}
+		b.WriteByte(s[i])
+	}
+	o.f("%s", b.String())
+}
+
+// c15Idents: sorted, de-duplicated identifier names occurring in the nodes (selectors contribute both sides)
+func c15Idents(nodes ...ast.Node) string {
+	set := map[string]bool{}
+	for _, n := range nodes {
+		if n == nil {
+			continue
+		}
+		ast.Inspect(n, func(x ast.Node) bool {
+			if id, ok := x.(*ast.Ident); ok {
+				set[id.Name] = true
+			}
+			return true
+		})
+	}
+	var l []string
+	for k := range set {
+		l = append(l, k)
+	}
+	sort.Strings(l)
+	return strings.Join(l, ",")
+}
+
+// c15Pat: one recognised statement.  kind "stmt": exact normalised text; "prefix": the text starts with it; "if" / "for" /
+// "switch" / "case" / "select" / "comm": the header, recognised by the SET of identifiers it mentions (so that a changed
+// operator or literal changes the translated condition, not the skeleton).
+type c15Pat struct {
+	code int
+	kind string
+	text string
+}
+
+type c15Sk struct {
+	p      *pkgInfo
+	pats   []c15Pat
+	ignore []string
+	items  []string
+	notes  []string
+}
+
+func (s *c15Sk) emit(depth int, kind, key, shown string) {
+	code := 99
+	for _, p := range s.pats {
+		if p.kind == kind && p.text == key {
+			code = p.code
+			break
+		}
+		if kind == "stmt" && p.kind == "prefix" && strings.HasPrefix(key, p.text) {
+			code = p.code
+			break
+		}
+	}
+	s.items = append(s.items, fmt.Sprintf("(%d, %d)", depth, code))
+	if len(shown) > 70 {
+		shown = shown[:70] + "..."
+	}
+	s.notes = append(s.notes, fmt.Sprintf("%d:%d `%s`", depth, code, strings.ReplaceAll(strings.ReplaceAll(shown, "*)", "* )"), "(*", "( *")))
+}
+
+func (s *c15Sk) block(list []ast.Stmt, depth int) {
+	for _, st := range list {
+		s.stmt(st, depth)
+	}
+}
+
+func (s *c15Sk) stmt(st ast.Stmt, depth int) {
+	switch x := st.(type) {
+	case *ast.BlockStmt:
+		s.block(x.List, depth)
+	case *ast.IfStmt:
+		s.emit(depth, "if", c15Idents(x.Init, x.Cond), "if "+c15norm(printNode(s.p.fset, x.Cond)))
+		s.block(x.Body.List, depth+1)
+		if x.Else != nil {
+			s.items = append(s.items, fmt.Sprintf("(%d, 98)", depth))
+			s.notes = append(s.notes, fmt.Sprintf("%d:98 else", depth))
+			s.stmt(x.Else, depth+1)
+		}
+	case *ast.ForStmt:
+		s.emit(depth, "for", c15Idents(x.Init, x.Cond, x.Post), "for "+c15norm(printNode(s.p.fset, x.Cond)))
+		s.block(x.Body.List, depth+1)
+	case *ast.RangeStmt:
+		s.emit(depth, "for", c15Idents(x.Key, x.Value, x.X), "for range "+c15norm(printNode(s.p.fset, x.X)))
+		s.block(x.Body.List, depth+1)
+	case *ast.SwitchStmt:
+		s.emit(depth, "switch", c15Idents(x.Init, x.Tag), "switch")
+		for _, c := range x.Body.List {
+			cc := c.(*ast.CaseClause)
+			key := "default"
+			if cc.List != nil {
+				var ns []ast.Node
+				for _, e := range cc.List {
+					ns = append(ns, e)
+				}
+				key = c15Idents(ns...)
+			}
+			s.emit(depth+1, "case", key, "case "+key)
+			s.block(cc.Body, depth+2)
+		}
+	case *ast.TypeSwitchStmt:
+		s.emit(depth, "switch", c15Idents(x.Init, x.Assign), "switch "+c15norm(printNode(s.p.fset, x.Assign)))
+		for _, c := range x.Body.List {
+			cc := c.(*ast.CaseClause)
+			key := "default"
+			if cc.List != nil {
+				var ns []ast.Node
+				for _, e := range cc.List {
+					ns = append(ns, e)
+				}
+				key = c15Idents(ns...)
+			}
+			s.emit(depth+1, "case", key, "case "+key)
+			s.block(cc.Body, depth+2)
+		}
+	case *ast.SelectStmt:
+		s.emit(depth, "select", "", "select")
+		for _, c := range x.Body.List {
+			cc := c.(*ast.CommClause)
+			key := "default"
+			if cc.Comm != nil {
+				key = c15Idents(cc.Comm)
+			}
+			s.emit(depth+1, "comm", key, "case "+key)
+			s.block(cc.Body, depth+2)
+		}
+	case *ast.LabeledStmt:
+		s.stmt(x.Stmt, depth)
+	default:
+		txt := c15norm(printNode(s.p.fset, st))
+		for _, ig := range s.ignore {
+			if strings.Contains(txt, ig) {
+				return
+			}
+		}
+		var lits []*ast.FuncLit
+		ast.Inspect(st, func(n ast.Node) bool {
+			if fl, ok := n.(*ast.FuncLit); ok {
+				lits = append(lits, fl)
+				return false
+			}
+			return true
+		})
+		if len(lits) > 0 { // the statement is recognised by its text up to the first function literal; the literal's body follows
+			if k := strings.Index(txt, "func("); k >= 0 {
+				txt = txt[:k] + "func"
+			}
+		}
+		s.emit(depth, "stmt", txt, txt)
+		for _, fl := range lits {
+			s.block(fl.Body.List, depth+1)
+		}
+	}
+}
+
+// c15Skeleton emits the statement skeleton of a function as a list of (nesting depth, statement code); 99 = a statement the
+// table does not know (the models compare the list with the skeleton they were written against).
+func (o *out) c15Skeleton(dir, recv, name, coqName string, pats []c15Pat, ignore []string) {
+	p, fd := findFunc(dir, recv, name)
+	if fd == nil {
+		o.brokenDef(coqName, "function "+dir+":"+recv+"."+name+" not found")
+		return
+	}
+	s := &c15Sk{p: p, pats: pats, ignore: ignore}
+	s.block(fd.Body.List, 0)
+	o.cf("Definition %s : list (Z * Z) := [%s].\n(* %s:%s.%s statements (depth:code): %s *)\n", coqName, strings.Join(s.items, "; "), dir, recv, name,
+		strings.Join(s.notes, " | "))
+}
+
+// c15AssignOp: bool — the nth assignment to lhs is `lhs *= rhs`
+func (o *out) c15AssignOp(dir, recv, name, lhs string, nth int, rhs, coqName string) {
+	p, fd := findFunc(dir, recv, name)
+	if fd == nil {
+		o.brokenDef(coqName, "function "+dir+":"+recv+"."+name+" not found")
+		return
+	}
+	k, ok, got := 0, false, ""
+	ast.Inspect(fd.Body, func(n ast.Node) bool {
+		if as, is := n.(*ast.AssignStmt); is && len(as.Lhs) == 1 && len(as.Rhs) == 1 && printNode(p.fset, as.Lhs[0]) == lhs {
+			if k == nth {
+				got = c15norm(printNode(p.fset, as))
+				ok = as.Tok == token.MUL_ASSIGN && printNode(p.fset, as.Rhs[0]) == rhs
+			}
+			k++
+		}
+		return true
+	})
+	o.cf("Definition %s : bool := %v. (* %s:%s.%s assignment #%d to %s: `%s` *)\n", coqName, ok, dir, recv, name, nth, lhs, got)
+}
+
+// c15Float32Const: the float32 value of an untyped constant as mantissa / 2^shift (exact), the way the Go compiler converts it
+func (o *out) c15Float32Const(dir, goName, coqName string) {
+	ce, _, _, _ := findConstExpr(dir, goName)
+	bl, ok := ce.(*ast.BasicLit)
+	if ce == nil || !ok || (bl.Kind != token.FLOAT && bl.Kind != token.INT) {
+		o.brokenDef(coqName, "constant "+dir+"."+goName+" is not a numeric literal")
+		return
+	}
+	v := constant.MakeFromLiteral(bl.Value, bl.Kind, 0)
+	f32, _ := constant.Float32Val(v)
+	bits := math.Float32bits(f32)
+	exp := int((bits>>23)&0xff) - 127
+	mant := int64(bits&0x7fffff) | 1<<23
+	if (bits>>23)&0xff == 0 || f32 <= 0 {
+		o.brokenDef(coqName, "constant "+dir+"."+goName+" is not a positive normal float32")
+		return
+	}
+	// value = mant * 2^(exp-23)
+	o.cf("Definition %s_mant : Z := %d.\nDefinition %s_shift : Z := %d. (* float32(%s.%s) = %s = mant / 2^shift *)\n", coqName, mant, coqName, 23-exp, dir, goName,
+		strconv.FormatFloat(float64(f32), 'g', -1, 32))
+}
+
+// c15StringConsts: every string constant of the package, in source order, as byte strings; plus the list of all of them
+func (o *out) c15StringConsts(dir, prefix string) {
+	p := loadPkg(dir)
+	var files []string
+	for fn := range p.files {
+		files = append(files, fn)
+	}
+	sort.Strings(files)
+	var names, vals []string
+	for _, fn := range files {
+		for _, d := range p.files[fn].Decls {
+			gd, ok := d.(*ast.GenDecl)
+			if !ok || gd.Tok != token.CONST {
+				continue
+			}
+			for _, s := range gd.Specs {
+				vs := s.(*ast.ValueSpec)
+				for i, n := range vs.Names {
+					if i < len(vs.Values) {
+						if bl, ok := vs.Values[i].(*ast.BasicLit); ok && bl.Kind == token.STRING {
+							u, _ := strconv.Unquote(bl.Value)
+							names = append(names, n.Name)
+							vals = append(vals, u)
+						}
+					}
+				}
+			}
+		}
+	}
+	if len(names) == 0 {
+		o.brokenDef(prefix+"_paths", "no string constants in "+dir)
+		return
+	}
+	var items []string
+	for i, n := range names {
+		o.cf("Definition %s_path_%s : bytes := %s. (* %s.%s = %q *)\n", prefix, n, bytesLit([]byte(vals[i])), dir, n, vals[i])
+		items = append(items, prefix+"_path_"+n)
+	}
+	o.cf("Definition %s_paths : list bytes := [%s].\n", prefix, strings.Join(items, "; "))
+}
+
+var c15TypeCodes = map[string]int{"string": 1, "[]byte": 2, "uint": 3, "*int": 4, "bool": 5, "int": 6}
+
+// c15StructFields: field names (byte strings) and type codes (1 string, 2 []byte, 3 uint, 4 *int, 5 bool, 6 int, 99 other)
+func (o *out) c15StructFields(dir, goName, coqName string) {
+	p, st := findStruct(dir, goName)
+	if st == nil {
+		o.brokenDef(coqName, "struct "+dir+"."+goName+" not found")
+		return
+	}
+	var items, notes []string
+	for _, fl := range st.Fields.List {
+		ty := c15norm(printNode(p.fset, fl.Type))
+		code, ok := c15TypeCodes[ty]
+		if !ok {
+			code = 99
+		}
+		tag := ""
+		if fl.Tag != nil {
+			tag = " tag " + fl.Tag.Value
+			code = 99 // a renamed / omitted JSON field is outside the model
+		}
+		for _, n := range fl.Names {
+			items = append(items, fmt.Sprintf("(%s, %d)", bytesLit([]byte(n.Name)), code))
+			notes = append(notes, n.Name+" "+ty+tag)
+		}
+		if len(fl.Names) == 0 {
+			items = append(items, fmt.Sprintf("(%s, 99)", bytesLit([]byte(ty))))
+			notes = append(notes, "embedded "+ty)
+		}
+	}
+	o.cf("Definition %s : list (bytes * Z) := [%s]. (* %s.%s: %s *)\n", coqName, strings.Join(items, "; "), dir, goName, strings.Join(notes, "; "))
+}
+
+func c15FieldList(fs []string) string {
+	var items []string
+	for _, f := range fs {
+		items = append(items, bytesLit([]byte(f)))
+	}
+	return "[" + strings.Join(items, "; ") + "]"
+}
+
+// c15ClientCalls: every call `<x>.request(ctx, workerrpc.M, R)` in the package: the function it occurs in, the method path
+// and the request fields that function fills in (keys of the composite literal plus later `rr.F = ...` assignments).
+func (o *out) c15ClientCalls(dir, rpcDir, coqName string) {
+	p := loadPkg(dir)
+	var files []string
+	for fn := range p.files {
+		files = append(files, fn)
+	}
+	sort.Strings(files)
+	var items, notes []string
+	for _, fn := range files {
+		for _, d := range p.files[fn].Decls {
+			fd, ok := d.(*ast.FuncDecl)
+			if !ok || fd.Body == nil {
+				continue
+			}
+			ast.Inspect(fd.Body, func(n ast.Node) bool {
+				ce, ok := n.(*ast.CallExpr)
+				if !ok || len(ce.Args) != 3 {
+					return true
+				}
+				callee := printNode(p.fset, ce.Fun)
+				if !strings.HasSuffix(callee, ".request") {
+					return true
+				}
+				sel, ok := ce.Args[1].(*ast.SelectorExpr)
+				path := ""
+				if ok {
+					if cx, _, _, _ := findConstExpr(rpcDir, sel.Sel.Name); cx != nil {
+						if bl, ok := cx.(*ast.BasicLit); ok && bl.Kind == token.STRING {
+							path, _ = strconv.Unquote(bl.Value)
+						}
+					}
+				}
+				fields := map[string]bool{}
+				collectLit := func(e ast.Expr) {
+					if cl, ok := e.(*ast.CompositeLit); ok {
+						for _, el := range cl.Elts {
+							if kv, ok := el.(*ast.KeyValueExpr); ok {
+								fields[printNode(p.fset, kv.Key)] = true
+							}
+						}
+					}
+				}
+				switch a := ce.Args[2].(type) {
+				case *ast.CompositeLit:
+					collectLit(a)
+				case *ast.Ident:
+					ast.Inspect(fd.Body, func(m ast.Node) bool {
+						if as, ok := m.(*ast.AssignStmt); ok {
+							for i, l := range as.Lhs {
+								if id, ok := l.(*ast.Ident); ok && id.Name == a.Name && i < len(as.Rhs) {
+									collectLit(as.Rhs[i])
+								}
+								if se, ok := l.(*ast.SelectorExpr); ok {
+									if id, ok := se.X.(*ast.Ident); ok && id.Name == a.Name {
+										fields[se.Sel.Name] = true
+									}
+								}
+							}
+						}
+						return true
+					})
+				}
+				var fl []string
+				for f := range fields {
+					fl = append(fl, f)
+				}
+				sort.Strings(fl)
+				items = append(items, fmt.Sprintf("(%s, %s)", bytesLit([]byte(path)), c15FieldList(fl)))
+				notes = append(notes, fd.Name.Name+" -> "+path+" {"+strings.Join(fl, ",")+"}")
+				return true
+			})
+		}
+	}
+	o.cf("Definition %s : list (bytes * list bytes) := [%s]. (* %s: %s *)\n", coqName, strings.Join(items, "; "), dir, strings.Join(notes, " ; "))
+}
+
+// c15ResultFields: the fields of variable v (a *workerrpc.Response) the function reads
+func (o *out) c15ResultFields(dir, recv, name, v, coqName string) {
+	p, fd := findFunc(dir, recv, name)
+	if fd == nil {
+		o.brokenDef(coqName, "function "+dir+":"+recv+"."+name+" not found")
+		return
+	}
+	set := map[string]bool{}
+	ast.Inspect(fd.Body, func(n ast.Node) bool {
+		if se, ok := n.(*ast.SelectorExpr); ok {
+			if id, ok := se.X.(*ast.Ident); ok && id.Name == v {
+				set[se.Sel.Name] = true
+			}
+		}
+		return true
+	})
+	var fl []string
+	for f := range set {
+		fl = append(fl, f)
+	}
+	sort.Strings(fl)
+	_ = p
+	o.cf("Definition %s : list bytes := %s. (* %s:%s.%s reads %s.{%s} *)\n", coqName, c15FieldList(fl), dir, recv, name, v, strings.Join(fl, ","))
+}
+
+// c15HeaderKey: the single key of the composite literal of the given type inside the function (http.Header{"K": ...})
+func (o *out) c15HeaderKey(dir, recv, name, typ, coqName string) {
+	p, fd := findFunc(dir, recv, name)
+	if fd == nil {
+		o.brokenDef(coqName, "function "+dir+":"+recv+"."+name+" not found")
+		return
+	}
+	var keys []string
+	ast.Inspect(fd.Body, func(n ast.Node) bool {
+		if cl, ok := n.(*ast.CompositeLit); ok && cl.Type != nil && printNode(p.fset, cl.Type) == typ {
+			for _, el := range cl.Elts {
+				if kv, ok := el.(*ast.KeyValueExpr); ok {
+					if bl, ok := kv.Key.(*ast.BasicLit); ok && bl.Kind == token.STRING {
+						u, _ := strconv.Unquote(bl.Value)
+						keys = append(keys, u)
+					}
+				}
+			}
+		}
+		return true
+	})
+	if len(keys) != 1 {
+		o.brokenDef(coqName, fmt.Sprintf("expected exactly one %s literal key in %s, found %v", typ, name, keys))
+		return
+	}
+	o.cf("Definition %s : bytes := %s. (* %s:%s.%s %s{%q: ...} *)\n", coqName, bytesLit([]byte(keys[0])), dir, recv, name, typ, keys[0])
+}
+
+// c15CallStringArg: the string literal passed as argument idx of the first call to callee
+func (o *out) c15CallStringArg(dir, recv, name, callee string, idx int, coqName string) {
+	p, fd := findFunc(dir, recv, name)
+	if fd == nil {
+		o.brokenDef(coqName, "function "+dir+":"+recv+"."+name+" not found")
+		return
+	}
+	found, val := false, ""
+	ast.Inspect(fd.Body, func(n ast.Node) bool {
+		if ce, ok := n.(*ast.CallExpr); ok && !found && printNode(p.fset, ce.Fun) == callee && len(ce.Args) > idx {
+			if bl, ok := ce.Args[idx].(*ast.BasicLit); ok && bl.Kind == token.STRING {
+				val, _ = strconv.Unquote(bl.Value)
+				found = true
+			}
+		}
+		return !found
+	})
+	if !found {
+		o.brokenDef(coqName, "no call "+callee+"(\"...\") in "+name)
+		return
+	}
+	o.cf("Definition %s : bytes := %s. (* %s:%s.%s %s(%q) *)\n", coqName, bytesLit([]byte(val)), dir, recv, name, callee, val)
+}
+
+// c15TypeSwitchTable: the error classification of the worker handler.  Emits
+//
+//	<p>_by_concrete_type : bool   — the switch is `switch e := err.(type)` (no unwrapping)
+//	<p>_default_retryable : bool  — the assignment to resp.Retryable in front of the switch
+//	<p>_err_text_from_error : bool — resp.Err = err.Error() in front of the switch
+//	<p>_table : list (Z * Z * Z * Z * Z) — per case: type code (1 pkcs11Error, 2 token.NotImplementedError, 3 token.KeyUsageError, 99 other),
+//	     retryable when fatalErrors[e] (1 true, 0 false, 2 unchanged), retryable otherwise, usage (1 true, 0 false, 2 unchanged),
+//	     error text (0 err.Error() kept, 1 replaced by e.Err.Error(), 99 other)
+func (o *out) c15TypeSwitchTable(dir, recv, name, prefix string) {
+	p, fd := findFunc(dir, recv, name)
+	if fd == nil {
+		o.brokenDef(prefix+"_table", "function "+dir+":"+recv+"."+name+" not found")
+		return
+	}
+	// either `switch e := err.(type)` (concrete type, no unwrapping) or a tag-less switch whose cases are
+	// `errors.As(err, &v)` with `var v T` declared in front of it (looks through wrappers)
+	type clause struct {
+		typ  string
+		v    string
+		body []ast.Stmt
+	}
+	var clauses []clause
+	var encl *ast.BlockStmt
+	var swStmt ast.Stmt
+	concrete, found, hasDefault := false, false, false
+	ast.Inspect(fd.Body, func(n ast.Node) bool {
+		b, ok := n.(*ast.BlockStmt)
+		if !ok || found {
+			return !found
+		}
+		vars := map[string]string{}
+		for _, st := range b.List {
+			if ds, ok := st.(*ast.DeclStmt); ok {
+				if gd, ok := ds.Decl.(*ast.GenDecl); ok && gd.Tok == token.VAR {
+					for _, sp := range gd.Specs {
+						vs := sp.(*ast.ValueSpec)
+						for _, nm := range vs.Names {
+							if vs.Type != nil {
+								vars[nm.Name] = c15norm(printNode(p.fset, vs.Type))
+							}
+						}
+					}
+				}
+			}
+			if t, ok := st.(*ast.TypeSwitchStmt); ok {
+				found, concrete, encl, swStmt = true, c15norm(printNode(p.fset, t.Assign)) == "e := err.(type)", b, st
+				for _, c := range t.Body.List {
+					cc := c.(*ast.CaseClause)
+					if cc.List == nil {
+						hasDefault = true
+					}
+					for _, te := range cc.List {
+						clauses = append(clauses, clause{c15norm(printNode(p.fset, te)), "e", cc.Body})
+					}
+				}
+				return false
+			}
+			if t, ok := st.(*ast.SwitchStmt); ok && t.Tag == nil && t.Init == nil {
+				var cl []clause
+				good := len(t.Body.List) > 0
+				def := false
+				for _, c := range t.Body.List {
+					cc := c.(*ast.CaseClause)
+					if cc.List == nil {
+						def = true
+						continue
+					}
+					if len(cc.List) != 1 {
+						good = false
+						break
+					}
+					ce, ok := cc.List[0].(*ast.CallExpr)
+					if !ok || printNode(p.fset, ce.Fun) != "errors.As" || len(ce.Args) != 2 || printNode(p.fset, ce.Args[0]) != "err" {
+						good = false
+						break
+					}
+					ue, ok := ce.Args[1].(*ast.UnaryExpr)
+					if !ok || ue.Op != token.AND {
+						good = false
+						break
+					}
+					v := printNode(p.fset, ue.X)
+					ty, ok := vars[v]
+					if !ok {
+						good = false
+						break
+					}
+					cl = append(cl, clause{ty, v, cc.Body})
+				}
+				if good {
+					found, concrete, encl, swStmt, clauses, hasDefault = true, false, b, st, cl, def
+					return false
+				}
+			}
+		}
+		return true
+	})
+	if !found {
+		o.cf("Definition %s_by_concrete_type : bool := false. (* %s:%s.%s has no error classification switch *)\n", prefix, dir, recv, name)
+		o.brokenDef(prefix+"_table", "no classification switch (type switch or errors.As chain) in "+name)
+		return
+	}
+	o.cf("Definition %s_by_concrete_type : bool := %v. (* %s:%s.%s : true = `switch e := err.(type)`, false = `switch { case errors.As(err, &v): ... }` *)\n", prefix, concrete, dir, recv, name)
+	defRetry, defText := "2", false
+	for _, st := range encl.List {
+		if st == swStmt {
+			break
+		}
+		txt := c15norm(printNode(p.fset, st))
+		switch txt {
+		case "resp.Retryable = true":
+			defRetry = "1"
+		case "resp.Retryable = false":
+			defRetry = "0"
+		case "resp.Err = err.Error()":
+			defText = true
+		}
+	}
+	o.cf("Definition %s_default_retryable : bool := %v.\nDefinition %s_err_text_from_error : bool := %v.\n", prefix, defRetry == "1", prefix, defText)
+	typeCodes := map[string]int{"pkcs11Error": 1, "token.NotImplementedError": 2, "token.KeyUsageError": 3}
+	scan := func(list []ast.Stmt, v string) (retry, usage string, text int, key int) {
+		retry, usage, text, key = "2", "2", 0, 0
+		for _, st := range list {
+			switch c15norm(printNode(p.fset, st)) {
+			case "resp.Retryable = true":
+				retry = "1"
+			case "resp.Retryable = false":
+				retry = "0"
+			case "resp.Usage = true":
+				usage = "1"
+			case "resp.Usage = false":
+				usage = "0"
+			case "resp.Err = " + v + ".Err.Error()":
+				text = 1
+			case "resp.Key = " + v + ".Key":
+				key = 1
+			default:
+				t := c15norm(printNode(p.fset, st))
+				if strings.HasPrefix(t, "resp.Err =") {
+					text = 99
+				}
+				if strings.HasPrefix(t, "resp.Key =") {
+					key = 99
+				}
+			}
+		}
+		return
+	}
+	var rows, notes []string
+	for _, cl := range clauses {
+		code, ok := typeCodes[cl.typ]
+		if !ok {
+			code = 99
+		}
+		rf, re := "2", "2"
+		var plain []ast.Stmt
+		for _, st := range cl.body {
+			if is, ok := st.(*ast.IfStmt); ok && c15norm(printNode(p.fset, is.Cond)) == "fatalErrors["+cl.v+"]" {
+				r1, _, _, _ := scan(is.Body.List, cl.v)
+				rf = r1
+				if eb, ok := is.Else.(*ast.BlockStmt); ok {
+					r2, _, _, _ := scan(eb.List, cl.v)
+					re = r2
+				}
+				continue
+			}
+			plain = append(plain, st)
+		}
+		r, us, tx, ky := scan(plain, cl.v)
+		if r != "2" {
+			rf, re = r, r
+		}
+		rows = append(rows, fmt.Sprintf("(%d, %s, %s, %s, %d, %d)", code, rf, re, us, tx, ky))
+		notes = append(notes, cl.typ)
+	}
+	if hasDefault {
+		rows = append(rows, "(0, 99, 99, 99, 99, 99)")
+		notes = append(notes, "default")
+	}
+	o.cf("Definition %s_table : list (Z * Z * Z * Z * Z * Z) := [%s]. (* cases, in order: %s *)\n", prefix, strings.Join(rows, "; "), strings.Join(notes, ", "))
+}
+
+// c15DispatchTable: the `switch <tag>` of the handler: for every case the path it matches (resolved through the constants of
+// rpcDir), the request fields it reads (rr.F), the response fields it assigns (resp.F) and the token operations it performs
+// (1 Ping, 2 GetKey, 3 SignContext, in source order); plus the fields read in front of the switch and whether there is a default.
+func (o *out) c15DispatchTable(dir, recv, name, tag, rpcDir, prefix string) {
+	p, fd := findFunc(dir, recv, name)
+	if fd == nil {
+		o.brokenDef(prefix+"_cases", "function "+dir+":"+recv+"."+name+" not found")
+		return
+	}
+	var sw *ast.SwitchStmt
+	ast.Inspect(fd.Body, func(n ast.Node) bool {
+		if s, ok := n.(*ast.SwitchStmt); ok && sw == nil && s.Tag != nil && printNode(p.fset, s.Tag) == tag {
+			sw = s
+		}
+		return sw == nil
+	})
+	if sw == nil {
+		o.brokenDef(prefix+"_cases", "no `switch "+tag+"` in "+name)
+		return
+	}
+	uses := func(nodes []ast.Stmt, v string) []string {
+		set := map[string]bool{}
+		for _, n := range nodes {
+			ast.Inspect(n, func(x ast.Node) bool {
+				if se, ok := x.(*ast.SelectorExpr); ok {
+					if id, ok := se.X.(*ast.Ident); ok && id.Name == v {
+						set[se.Sel.Name] = true
+					}
+				}
+				return true
+			})
+		}
+		var l []string
+		for k := range set {
+			l = append(l, k)
+		}
+		sort.Strings(l)
+		return l
+	}
+	assigned := func(nodes []ast.Stmt, v string) []string {
+		set := map[string]bool{}
+		for _, n := range nodes {
+			ast.Inspect(n, func(x ast.Node) bool {
+				if as, ok := x.(*ast.AssignStmt); ok {
+					for _, l := range as.Lhs {
+						if se, ok := l.(*ast.SelectorExpr); ok {
+							if id, ok := se.X.(*ast.Ident); ok && id.Name == v {
+								set[se.Sel.Name] = true
+							}
+						}
+					}
+				}
+				return true
+			})
+		}
+		var l []string
+		for k := range set {
+			l = append(l, k)
+		}
+		sort.Strings(l)
+		return l
+	}
+	tokOps := func(nodes []ast.Stmt) string {
+		var ops []string
+		for _, n := range nodes {
+			ast.Inspect(n, func(x ast.Node) bool {
+				if ce, ok := x.(*ast.CallExpr); ok {
+					switch c := printNode(p.fset, ce.Fun); {
+					case c == "h.token.Ping":
+						ops = append(ops, "1")
+					case c == "h.token.GetKey":
+						ops = append(ops, "2")
+					case strings.HasSuffix(c, ".SignContext") || strings.HasSuffix(c, ".Sign"):
+						ops = append(ops, "3")
+					case strings.HasPrefix(c, "h.token."):
+						ops = append(ops, "99")
+					}
+				}
+				return true
+			})
+		}
+		return "[" + strings.Join(ops, "; ") + "]"
+	}
+	// statements in front of the switch
+	var before []ast.Stmt
+	for _, st := range fd.Body.List {
+		if st == ast.Stmt(sw) {
+			break
+		}
+		before = append(before, st)
+	}
+	o.cf("Definition %s_common_reads : list bytes := %s. (* rr fields read in front of the switch *)\n", prefix, c15FieldList(uses(before, "rr")))
+	o.cf("Definition %s_common_token_ops : list Z := %s.\n", prefix, tokOps(before))
+	var rows, notes []string
+	hasDefault := false
+	for _, c := range sw.Body.List {
+		cc := c.(*ast.CaseClause)
+		if cc.List == nil {
+			hasDefault = true
+			o.cf("Definition %s_default_token_ops : list Z := %s.\n", prefix, tokOps(cc.Body))
+			continue
+		}
+		for _, e := range cc.List {
+			path := ""
+			if sel, ok := e.(*ast.SelectorExpr); ok {
+				if cx, _, _, _ := findConstExpr(rpcDir, sel.Sel.Name); cx != nil {
+					if bl, ok := cx.(*ast.BasicLit); ok && bl.Kind == token.STRING {
+						path, _ = strconv.Unquote(bl.Value)
+					}
+				}
+			} else if bl, ok := e.(*ast.BasicLit); ok && bl.Kind == token.STRING {
+				path, _ = strconv.Unquote(bl.Value)
+			}
+			rows = append(rows, fmt.Sprintf("(%s, %s, %s, %s)", bytesLit([]byte(path)), c15FieldList(uses(cc.Body, "rr")), c15FieldList(assigned(cc.Body, "resp")), tokOps(cc.Body)))
+			notes = append(notes, fmt.Sprintf("%s reads{%s} sets{%s}", path, strings.Join(uses(cc.Body, "rr"), ","), strings.Join(assigned(cc.Body, "resp"), ",")))
+		}
+	}
+	o.cf("Definition %s_cases : list (bytes * list bytes * list bytes * list Z) := [%s]. (* %s *)\n", prefix, strings.Join(rows, "; "), strings.Join(notes, " ; "))
+	o.cf("Definition %s_has_default : bool := %v.\n", prefix, hasDefault)
+}
+
+// c15MapKeys: the keys of a package-level map literal, as printed
+func (o *out) c15MapKeys(dir, varName, coqName string) {
+	ce, p, _, _ := findConstExpr(dir, varName)
+	cl, ok := ce.(*ast.CompositeLit)
+	if ce == nil || !ok {
+		o.brokenDef(coqName, "package variable "+dir+"."+varName+" is not a composite literal")
+		return
+	}
+	var keys []string
+	allTrue := true
+	for _, el := range cl.Elts {
+		if kv, ok := el.(*ast.KeyValueExpr); ok {
+			keys = append(keys, printNode(p.fset, kv.Key))
+			if printNode(p.fset, kv.Value) != "true" {
+				allTrue = false
+			}
+		}
+	}
+	o.cf("Definition %s : list bytes := %s. (* %s.%s keys: %s *)\nDefinition %s_all_true : bool := %v.\n", coqName, c15FieldList(keys), dir, varName,
+		strings.Join(keys, ", "), coqName, allTrue)
+}
+
+// c15ChanCap: capacity of the channel made for the composite-literal field `field: make(chan T, N)` in the function
+func (o *out) c15ChanCap(dir, recv, name, field, coqName string) {
+	p, fd := findFunc(dir, recv, name)
+	if fd == nil {
+		o.brokenDef(coqName, "function "+dir+":"+recv+"."+name+" not found")
+		return
+	}
+	capv := int64(-1)
+	ast.Inspect(fd.Body, func(n ast.Node) bool {
+		if kv, ok := n.(*ast.KeyValueExpr); ok && printNode(p.fset, kv.Key) == field {
+			if ce, ok := kv.Value.(*ast.CallExpr); ok && printNode(p.fset, ce.Fun) == "make" {
+				capv = 0
+				if len(ce.Args) == 2 {
+					if v, err := evalConst(dir, ce.Args[1], 0); err == nil {
+						capv = v.i
+					}
+				}
+			}
+		}
+		return true
+	})
+	if capv < 0 {
+		o.brokenDef(coqName, "no `"+field+": make(chan ...)` in "+name)
+		return
+	}
+	o.cf("Definition %s : Z := %d. (* %s:%s.%s %s: make(chan ..., %d) *)\n", coqName, capv, dir, recv, name, field, capv)
 }
